@@ -31,10 +31,10 @@ func TMerc(this *SR) (forward, inverse Transformer, err error) {
 				return math.NaN(), math.NaN(), fmt.Errorf("in proj.TMerc forward: b == 0")
 			}
 			x = 0.5*this.A*this.K0*math.Log((1+b)/(1-b)) + this.X0
-			con = math.Acos(cos_phi * math.Cos(delta_lon) / math.Sqrt(1-b*b))
-			if lat < 0 {
-				con = -con
-			}
+			// This is acos(cos_phi*cos(delta_lon)/sqrt(1-b*b)) with the sign
+			// of lat, written without the cancellation that the arc
+			// cosine suffers from close to the equator.
+			con = math.Atan2(sin_phi, cos_phi*math.Cos(delta_lon))
 			y = this.A*this.K0*(con-this.Lat0) + this.Y0
 
 		} else {
@@ -67,7 +67,8 @@ func TMerc(this *SR) (forward, inverse Transformer, err error) {
 			var g = 0.5 * (f - 1/f)
 			var temp = this.Lat0 + (y-this.Y0)/(this.A*this.K0)
 			var h = math.Cos(temp)
-			con = math.Sqrt((1 - h*h) / (1 + g*g))
+			// sqrt(1-h*h) without cancellation close to the equator.
+			con = math.Abs(math.Sin(temp)) / math.Sqrt(1+g*g)
 			lat = asinz(con)
 			if temp < 0 {
 				lat = -lat
